@@ -25,6 +25,10 @@ Proof.
   destruct (rp_band r) as [lo hi] eqn:EB. cbn [fst snd] in *. repeat split; congruence.
 Qed.
 
+Theorem C09_fixed_plan_channel_maps_match_rp002 : forall r, In r [4%N; 8%N] ->
+  r_uplink r = rp_uplink_channels r /\ r_downlink r = rp_downlink_channels r /\ (r_join_dr r false, r_join_dr r true) = rp_join_dr r.
+Proof. intros r [<-|[<-|[]]]; vm_compute; repeat split; reflexivity. Qed.
+
 (* the in-band invariant of dynamic plans: holds initially, kept by every operation that defines channels *)
 Theorem C09_plan_invariant_initial : forall r, (r < 9)%N -> r_fixed r = false -> dyn_ok r (dyn_new r).
 Proof. exact dyn_new_ok. Qed.
